@@ -34,7 +34,7 @@ type sigCase struct {
 // construct builds a tuple from one of the accept-side constructions and
 // then optionally applies one reject-side edit.
 func construct(t *rapid.T, friendly bool) sigCase {
-	how := gen.Sampled([]string{"honest", "chosen-R", "chosen-R", "R=O", "random"}).Draw(t, "how")
+	how := gen.Sampled([]string{"honest", "chosen-R", "chosen-R", "R=O", "random", "exceptional-window"}).Draw(t, "how")
 	if friendly && (how == "R=O" || how == "random") {
 		how = "chosen-R"
 	}
@@ -136,6 +136,20 @@ func construct(t *rapid.T, friendly bool) sigCase {
 		if R.X.Cmp(ref.N) >= 0 {
 			c.cls = append(c.cls, "x(R)>=n")
 		}
+	case "exceptional-window":
+		// verification evaluates u1*G + u2*Q (u1 = e/s, u2 = r/s): with Q = d*G, (u1, u2) are solved so that an
+		// accumulator started at u2*Q meets the fixed-base table entry it is about to add (gen.ExceptionalDouble);
+		// R = (u1 + u2*d)*G fixes r, then s = r/u2 and e = u1*s.  The signature is valid.
+		d, u1, u2, kind := gen.ExceptionalDouble(t, "xw")
+		R := ref.BaseMul(ref.Mod(new(big.Int).Add(u1, new(big.Int).Mul(u2, d)), ref.N))
+		if R.Inf || u2.Sign() == 0 || ref.Mod(R.X, ref.N).Sign() == 0 {
+			t.Skip("degenerate exceptional-window construction")
+		}
+		r := ref.Mod(R.X, ref.N)
+		s := ref.MulM(r, ref.Inv0(u2, ref.N), ref.N)
+		c.digest, _ = gen.Digest(t, ref.MulM(u1, s, ref.N), dlen, alias, "dg")
+		c.d, c.q, c.r, c.s, c.rPoint = d, ref.BaseMul(d), r, s, R
+		c.cls = append(c.cls, kind)
 	case "R=O":
 		// u1*G + u2*Q = ((e + r*d)/s) G = O  <=>  e = -r*d
 		d := gen.NonZero256(t, ref.N, "d")
